@@ -170,6 +170,40 @@ let run_sched g _obs =
     (out_strings downs_only ^ " " ^ dump_all s2 euis ^ " ; trace{" ^ String.concat "," tr ^ "}", s1, s2, eui)
   | _ -> failwith "sched case: frames do not belong to one device"
 
+(* the second copy arrives while the first waits for its receive window: the first handler runs up to its
+   buffer read (it holds the device's slot), the second runs to its end, then the first goes on; a third frame
+   follows sequentially *)
+let run_window g _obs =
+  let (s0, euis) = initial_server g in
+  let pre = if g "pre" = "" then [] else List.map parse_event (String.split_on_char '|' (g "pre")) in
+  let s1 = List.fold_left (fun s ev -> match ev with Sub m -> fst (submit s m) | _ -> s) s0 pre in
+  let frame_of tag = match parse_event (g tag) with Rx (rx, an, na) -> (rx, an, na) | _ -> failwith "frame" in
+  let (rx1, _, _) = frame_of "f1" and (rx2, _, _) = frame_of "f2" and (rx3, an3, na3) = frame_of "f3" in
+  let prog_of rx =
+    match decode (mk_slice rx.rx_raw []) with
+    | Ok f -> (match List.filter (mic_ok e f rx.rx_raw) (dt_by_devaddr s1.s_tab (devaddr_u32 f.f_devaddr)) with
+        | [dv] -> (dv.d_eui, uplink_prog e d f rx (S O) (n_of_int 1))
+        | _ -> failwith "window case: not exactly one device")
+    | _ -> failwith "window case: undecodable frame" in
+  let (eui, p) = prog_of rx1 in
+  let (_, q) = prog_of rx2 in
+  let st = dt_get s1.s_tab eui in
+  (* how many operations the first handler performs before its buffer read *)
+  let rec before_read st p n = match p with
+    | Do (SGetPhy _, _) -> n
+    | Do (o, k) -> let ((st', r), _) = exec s1.s_apps st o in before_read st' (k r) (n + 1)
+    | Halt _ -> n in
+  let n0 = before_read st p 0 in
+  let sched = List.init n0 (fun _ -> false) @ List.init 40 (fun _ -> true) in
+  let (st', outs) = interleave s1.s_apps sched (nat_of_int 200) st p q [] in
+  let s2 = { s1 with s_tab = dt_put s1.s_tab eui st' } in
+  let downs_only = List.filter (function ODown _ -> true | _ -> false) outs in
+  let line1 = out_strings downs_only ^ " " ^ dump_all s2 euis in
+  let (s3, outs3) = rx_event e d s2 rx3 an3 na3 (n_of_int 1) in
+  let downs3 = List.filter (function ODown _ -> true | _ -> false) outs3 in
+  let line2 = out_strings downs3 ^ " " ^ dump_all s3 euis in
+  (line1 ^ "|" ^ line2, s1, s3, eui)
+
 let run_history g obs (judge : n list -> step list -> string) =
   let (netid, nonce_off) = match String.split_on_char ':' (g "cfg") with [a; b] -> (int_of_string a, b = "1") | _ -> failwith "cfg" in
   let apps = List.map hexn (String.split_on_char ',' (g "apps")) in
